@@ -166,6 +166,20 @@ impl HelperAttributes {
 //@   before for field in fields ## #[verus_spec(it => invariant it.seq().len() == fields@.len(), forall|i: int| 0 <= i < fields@.len() ==> *it.seq()[i] == fields@[i], 0 <= it.index@ <= fields@.len(), kind is Default, wcb.gps == old(wcb).gps, same(wcb, def_fields_phase(st(old(wcb), true), use_bounds, &old(wcb).gps, fields@, it.index@)))]
 //@ end
 verus! {
+// C03/C11: with a type-level `#[default(expr)]` the body uses no field, so no field contributes; otherwise every field resolves its own
+// levels and, lacking an explicit value, adds its default bound
+pub open spec fn def_struct_expected(g: &Generics, h: &HelperAttributes, e: &DeriveEntry, fs: Seq<FieldEntry>) -> St {
+    let s1 = entry_phase(level_phase(start(g), h, DeriveItemKind::Default), e);
+    if has_value(h) { s1 } else { def_fields_phase(St { go: true, ..s1 }, s1.go, &gps_of(g), fs, fs.len() as int) }
+}
+}
+//@ fn item_type.rs build_default_for_struct
+//@   attr #[verus_verify]
+//@   rewrite R12
+//@   spec r => ensures r is Ok
+//@   before let wheres = wcb.build( ## proof! { assert(same(&wcb, def_struct_expected(&item.generics, hattrs, e, fields@))); }
+//@ end
+verus! {
 #[verifier::external_body]
 pub fn with_ref<T: ToTok>(source: &T, is_ref: bool) -> TokenStream { unimplemented!() }
 #[verifier::external_body]
